@@ -246,7 +246,10 @@ def tqGo (s : PState) (budget : Nat) : Nat → Nat → List (Nat × Nat × Optio
     let base := Timeout.serverTimeout (metricsOf s srv) s.timeout s.maxtimeout s.nowSec
     let o := Timeout.calcQueryTimeout base s.maxtimeout k s.nsrv (r.getD 0)
     let rs := match r with | some v => toString v | none => "-"
-    let flag := (if o.ub then "!UB" else "") ++ (if o.ovf then "!OVF" else "")
+    -- the theorems abstract the jitter by an interval; check on every observed attempt that the exact value lies in it
+    let pj := (Timeout.preJitter (Cares.Generated.Proto.CALC_SHIFT_GUARDED == 1) base s.maxtimeout (k / s.nsrv)).1
+    let jitBad := k / s.nsrv > 0 && !(decide (Timeout.jitterOk pj (Timeout.jitterExact pj (r.getD 0))))
+    let flag := (if o.ub then "!UB" else "") ++ (if o.ovf then "!OVF" else "") ++ (if jitBad then "!JIT" else "")
     tqGo (s.adv (o.timeplus * 1000)) budget fuel (k + 1) rest (s!"a={srv}:{o.timeplus}:{rs}:{base}{flag}" :: acc)
 
 def doTq (s : PState) : List String → PState × String
